@@ -314,7 +314,13 @@ def run(item, ctx, tier, seed):
                 order = order[1::2] + order[0::2]
             ll = [lab[i] for i in order]
             ss = [scs[i] for i in order]
-            for pos_label, labels in ((1, ll), ("p", ["p" if x else "q" for x in ll])):
+            label_forms = [(1, ll), ("p", ["p" if x else "q" for x in ll])]
+            if variant == 1:
+                # boolean labels whose *False* marks the positive class; a pos_label of another type that compares
+                # equal (0 == False); float labels
+                label_forms += [(False, np.array([not bool(x) for x in ll], dtype=bool)), (0, [not bool(x) for x in ll]),
+                                (2.5, [2.5 if x else -1.0 for x in ll])]
+            for pos_label, labels in label_forms:
                 case = {"blocks": item["blocks"], "grid": item["grid"], "form": "from_labels",
                         "labels": labels, "scores": ss, "cfg": cfg, "pos_label": pos_label}
                 ctx.state()
